@@ -723,7 +723,10 @@ pub fn gen_threads(rec: &mut Recorder, rng: &mut StdRng, iters: usize, nthreads:
                                     "bitand(x, 6), bitor(x, 1), shl(x, 2)", "contains_any(zed, (2, 5))", "contains(zed, x)",
                                     "typeof(s1), len(s2), len(zed)", "math::abs(-x)", "max(x, 1.5), min(2.5, x)",
                                     "str::from(s1)", "str::from((s2, 1))", "str::from(y), str::from((y, zed))", "str::from(true), str::from(())",
-                                    "(s1, x) == (s1, x)", "s1 < s2, s2 < s1", "typeof(x), typeof(1.5), typeof(true), typeof(())"]
+                                    "(s1, x) == (s1, x)", "s1 < s2, s2 < s1", "typeof(x), typeof(1.5), typeof(true), typeof(())",
+                                    // float primitives on different operands from different threads (a memo behind `^` / math::)
+                                    "x ^ 2", "2 ^ x", "1.5 ^ x", "math::pow(x, 3)", "math::pow(2.5, x)", "x * 1.5, x / 2.5, x % 3",
+                                    "math::ln(x + 1), math::exp(x)", "math::sin(x), math::cos(x + 1)", "math::atan2(x, 2), math::hypot(x, 3)"]
         .iter()
         .map(|s| s.to_string())
         .collect();
